@@ -2,7 +2,8 @@
 (* Bounded model for C01 / C02 (B1): three channels with launch powers 1, 2, 4; gains/losses 1/4, 1/2, 2        *)
 (* (uniform and tilted across the channels), ASE additions 0, 1/8, 1, NLI transfers of 0, 1/8, 1/2 of the      *)
 (* channel power, every split of the three channels in two spectra (bands in either order, and the middle  *)
-(* channel against the outer two, whose merge interleaves); every behaviour of at most MaxDepth operations.    *)
+(* channel against the outer two, whose merge interleaves), a sub-spectrum split again (three spectra merged  *)
+(* at once); every behaviour of at most MaxDepth operations.                                                   *)
 (* All integers met stay below 2^31 (TLC would stop with an overflow error otherwise).                          *)
 EXTENDS PowerLedger, TLC
 
@@ -19,12 +20,13 @@ MCSplits == (SUBSET (1..MCNCh)) \ {{}, 1..MCNCh}      \* every selection: lower 
 \* at most MaxDepth operations.  The bound is an explicit counter: TLCGet("level") is not a function of the state
 \* when several workers explore in parallel (measured here: 3 % of the states were missed), a counter is exact.
 VARIABLE depth
-mcvars == <<parts, last, depth>>
+mcvars == <<parts, src, last, depth>>
 MCInit == Init /\ depth = 0
 MCNext == depth < MaxDepth /\ Next /\ depth' = depth + 1
 
 \* the action properties of PowerLedger over the variables of this module
 MCDemuxMuxKeepLedger == [][DemuxMuxKeepLedgerStep]_mcvars
+MCSourceUntouched    == [][SourceUntouchedStep]_mcvars
 MCKeepsOsnr          == [][KeepsOsnrStep]_mcvars
 MCKeepsNli           == [][KeepsNliStep]_mcvars
 MCLowersOsnr         == [][LowersOsnrStep]_mcvars
@@ -34,7 +36,9 @@ MCOthersUntouched    == [][OthersUntouchedStep]_mcvars
 
 \* vacuity witnesses (each must be VIOLATED when listed as an invariant)
 WitnessMuxAfterOps == ~(last.op = "Mux" /\ \E ch \in All(parts) : ch.A # RZero /\ ch.N # RZero)
-WitnessNoiseInBand == ~(Len(parts) = 2 /\ \E ch \in All(parts) : ch.A # RZero /\ ch.N # RZero)
+WitnessNoiseInBand == ~(Len(parts) >= 2 /\ \E ch \in All(parts) : ch.A # RZero /\ ch.N # RZero)
+\* three spectra at once (merged by the next Mux), noise already added to one of them
+WitnessThreeParts == ~(Len(parts) = 3 /\ \E ch \in All(parts) : ch.A # RZero)
 \* a merge that interleaves two spectra with different noise histories
 WitnessInterleavedMux == ~(last.op = "Mux" /\ Led(parts, 2).N # RZero /\ Led(parts, 1).N = RZero /\ Led(parts, 3).A # RZero)
 ==============================================================================
